@@ -150,7 +150,7 @@ def validate_before_write(F, R):
             if (nm.startswith('core::panicking') or nm.startswith('std::rt::begin_panic')) and 'debug_assert' not in t.get('mac', ''):
                 out.append((bi, 'panic'))
             if nm == 'std::option::Option::<T>::ok_or':
-                out.append((bi, 'ok_or(%s)' % '/'.join(sorted({l[1].split('::')[-1] for l in Origin(b).of_operand(t['args'][1]) if l[0] == 'agg'}))))
+                out.append((bi, 'Err(%s)' % '/'.join(sorted({l[1].split('::')[-1] for l in Origin(b).of_operand(t['args'][1]) if l[0] == 'agg'}))))
             if nm.endswith('::from_residual'):
                 src = residual_sources(b, t)
                 ext = [n for n in src if not (n in bodies or any(n == q for q in bodies)) and not n.endswith('::ok_or')]
